@@ -54,7 +54,14 @@ class CompileResult:
 
     @property
     def harness_bug(self):
-        return bool(HARNESS_BUG_RE.search(self.err))
+        # judged on the FIRST error only (follow-up diagnostics and notes of a genuine library rejection may mention anything),
+        # and never for the documented 'Broken strict total ordering' limitation or a library static_assert
+        if "Broken strict total ordering" in self.err:
+            return False
+        first = self.first_error()
+        if "static assertion failed" in first or "static_assert failed" in first:
+            return False
+        return bool(HARNESS_BUG_RE.search(first))
 
     def first_error(self):
         for line in self.err.splitlines():
